@@ -780,6 +780,9 @@ class CircuitTemplate(AbstractBaseTemplate):
             edge_values = {}
         scalar_shape = (1,) if vectorize else ()
 
+        # positions in the state vector recorded by an earlier compilation do not apply to the new one
+        self._state_var_indices = {}
+
         # turn nodes from templates into IRs
         ####################################
 
